@@ -5,11 +5,13 @@ import json
 import vlib
 import storelib as S
 
-RULE = ("TLC checks OnlyWhenAllAcked / PublishedWhole / AtMostOnePending / IdsStrictlyIncrease of Store.tla over every call "
+RULE = ("TLC checks OnlyWhenAllAcked / PublishedWhole / PublishedOnce / AtMostOnePending / IdsStrictlyIncrease of Store.tla over every call "
         "string (create, savepoint, operator/runner acks with any id and any sender, async publication steps, restart) "
         "within the bounds; a transition cover of that graph and simulated longer behaviours are replayed call by call "
         "on the real snapshots.Store over a gated StorageLocation; published files are decoded and compared with what the "
-        "property demands after every call")
+        "property demands after every call; concurrent entry: the schedules of a store that releases its lock between an "
+        "acknowledgement's bookkeeping and finishSnapshot (Pre_AckUnlocked) are forced onto the real store from several "
+        "goroutines with the splitter's Checkpoint() held -- the store must serialise them or publish every id at most once")
 
 
 def run(c):
@@ -27,6 +29,7 @@ def run(c):
     # 2. the invariants are not vacuous: the pre-repair behaviours are counterexamples
     S.must_break(c, "Pre_DupSrAppended", {"PublishedWhole", "NoBad"}, MaxLen=9)
     S.must_break(c, "Pre_ListLexical", {"NoBad"}, MaxLen=12, StartId=2, Acts=S.GOOD)
+    S.must_break(c, "Pre_AckUnlocked", {"NoBad", "PublishedOnce", "NewestSurvives"}, MaxLen=9)
     # 3. transition cover of the bounded graph of the tiny assembly, replayed on the real store
     behs, cs = S.cover(c, "1 operator, 1 runner", MaxLen=8 if quick else 9)
     S.replay(c, behs, cs, "cover replay")
@@ -56,8 +59,18 @@ def run(c):
     S.replay(c, behs, cs, "simulated call strings with savepoints")
 
 
+    # 5. concurrent entry of calls: every call (repeated / late / foreign acknowledgement, create, publication) that a store
+    #    releasing its lock inside an acknowledgement would let in while the completing acknowledgement is still in
+    #    finishSnapshot, issued from another goroutine with the splitter's Checkpoint() held
+    window = [a for a in S.ALL if a not in ("Savepoint", "Restart")]
+    behs, cs = S.ack_windows(c, "calls entering during finishSnapshot, 1 operator, 1 runner", MaxLen=7, MaxRestarts=0, Acts=window)
+    S.replay(c, behs, cs, "concurrent calls during finishSnapshot", AdvAck=True)
+    if not quick:
+        behs, cs = S.ack_windows(c, "calls entering during finishSnapshot, 2 operators, 1 runner", MaxLen=8, MaxRestarts=0, Acts=window, Ops={"o1", "o2"})
+        S.replay(c, behs, cs, "concurrent calls during finishSnapshot", AdvAck=True)
+        behs, cs = S.ack_windows(c, "calls entering during finishSnapshot, resumed store, restarts", MaxLen=8, StartId=5, Acts=[a for a in S.ALL if a != "Savepoint"])
+        S.replay(c, behs, cs, "concurrent calls during finishSnapshot", AdvAck=True)
+
+
 def replay(c, path):
-    payload = json.load(open(path))
-    payload["property"] = c.prop
-    res = vlib.run_harness("store", payload)
-    c.add_harness(res, payload, "replay " + path)
+    S.replay_file(c, path)
